@@ -4,6 +4,10 @@ import json, os, re, shutil, subprocess, sys, tempfile, time, glob, random, hash
 VERIF = os.path.dirname(os.path.dirname(os.path.dirname(os.path.abspath(__file__))))
 SPEC = os.path.join(VERIF, 'spec')
 HARNESS = os.path.join(VERIF, 'harness')
+# The library under test.  Always /repo for the registered checks; tools/try_mutant.sh points VERIF_REPO at a
+# scratch copy with a seeded change applied (and VERIF_EVIDENCE_DIR elsewhere) so that trials never touch /repo.
+REPO = os.environ.get('VERIF_REPO', '/repo')
+EVIDENCE = os.environ.get('VERIF_EVIDENCE_DIR', os.path.join(VERIF, 'evidence'))
 GOENV = dict(os.environ, GOFLAGS='-mod=mod', GOPROXY='off', GOSUMDB='off', GOTOOLCHAIN='local',
              CGO_ENABLED='0')
 GO = 'go1.26.8'
@@ -77,7 +81,14 @@ def build_harness(pkg, outdir):
     if key in _built:
         return _built[key]
     binp = os.path.join(outdir, pkg.replace('/', '_') + '.test')
-    p = subprocess.run([GO, 'test', '-tags', 'verif', '-c', '-o', binp, './' + pkg], cwd=HARNESS, env=GOENV,
+    hdir = HARNESS
+    if REPO != '/repo':      # a private copy of the harness module whose replace directive names the scratch library
+        hdir = os.path.join(outdir, 'harness_src')
+        if not os.path.isdir(hdir):
+            shutil.copytree(HARNESS, hdir)
+            gm = open(os.path.join(hdir, 'go.mod')).read().replace('=> /repo', '=> ' + REPO)
+            open(os.path.join(hdir, 'go.mod'), 'w').write(gm)
+    p = subprocess.run([GO, 'test', '-tags', 'verif', '-c', '-o', binp, './' + pkg], cwd=hdir, env=GOENV,
                        stdout=subprocess.PIPE, stderr=subprocess.STDOUT, text=True)
     if p.returncode != 0 or not os.path.exists(binp):
         raise ToolError('building harness package %s against /repo failed:\n%s' % (pkg, p.stdout[-4000:]))
@@ -207,10 +218,10 @@ def validate_traces(traces, module, enforce, cfg_tmpl, workdir, keep_events=None
     return accepted, rejections
 
 def write_evidence(prop, tier, seed, level, coverage, wall, violations, assumptions=()):
-    os.makedirs(os.path.join(VERIF, 'evidence'), exist_ok=True)
+    os.makedirs(EVIDENCE, exist_ok=True)
     ev = dict(property_id=prop, tier=tier, seed=int(seed), level=level, coverage=coverage,
               assumptions=list(assumptions), wall_s=round(wall, 2), violations=int(violations))
-    with open(os.path.join(VERIF, 'evidence', prop + '.json'), 'w') as f:
+    with open(os.path.join(EVIDENCE, prop + '.json'), 'w') as f:
         json.dump(ev, f, indent=1, sort_keys=True)
 
 def known_findings():
